@@ -58,6 +58,62 @@ def generic_replay(ck, module, subcmd, plans, want, step, nontriv_fn, key_fn, ex
     return ok, nontriv
 
 
+def murex_level(ck, quick):
+    """The call site: `bg { cmd }` registers cmd in the job table.  Jobs.tla says: after N Adds the
+    listing is exactly jobs %1..%N, each process once; after all ended and a collection it is empty."""
+    import itertools
+    import json as _json
+    from vlib import prog
+    kinds = ['plain', 'alias']
+    cases = []
+    meta = {}
+    cid = 0
+    for n in (1, 2, 3):
+        for combo in itertools.product(kinds, repeat=n):
+            cid += 1
+            src = 'alias slpv%d=sleep 2\n' % cid
+            for k in combo:
+                src += 'bg { %s }\n' % ('sleep 2' if k == 'plain' else 'slpv%d' % cid)
+            src += 'sleep 0.6\nfid-list --jobs\nout ---\nsleep 2.4\nfid-list --jobs\n!alias slpv%d\n' % cid
+            cases.append({'id': cid, 'src': src, 'timeout_ms': 20000})
+            meta[cid] = (combo, src)
+    res = prog.run_programs(ck, cases, shards=min(len(cases), 14), tag='jobs')
+    good = 0
+    for cid, (combo, src) in meta.items():
+        x = res.get(cid)
+        ck.cov['evaluations'] += 1
+        if x is None or x['status'] != 'done':
+            ck.violation('murex:%s:%s' % ('+'.join(combo), x and x['status']), 'bg program crashed or hung', {'src': src})
+            continue
+        out = x['runs'][0]['out'].decode('utf-8', 'replace')
+        first, _, second = out.partition('---\n')
+        def rows(t):
+            rr = []
+            for line in t.strip().split('\n'):
+                try:
+                    v = _json.loads(line)
+                except ValueError:
+                    continue
+                if v and v[0] != 'JobID':
+                    rr.append(v)
+            return rr
+        r1, r2 = rows(first), rows(second)
+        ids = [r[0] for r in r1]
+        fids = [r[1] for r in r1]
+        want = ['%%%d' % (i + 1) for i in range(len(combo))]
+        if ids != want or len(set(fids)) != len(combo) or r2:
+            ck.violation('murex:listing:' + '+'.join(combo),
+                         '`bg` x%d (%s): jobs listed %s while running and %s after all ended; model: %s then nothing' % (
+                             len(combo), '+'.join(combo), [(r[0], r[1]) for r in r1], [(r[0], r[1]) for r in r2], want),
+                         {'src': src, 'stdout': out})
+        else:
+            good += 1
+            if len(combo) == 2 and 'alias' in combo and len(ck.cov['samples']) < 5:
+                ck.sample({'kind': 'murex program', 'src': src, 'stdout': out})
+    ck.cov['traces_validated_against_impl'] += good
+    ck.cov['murex_level_programs'] = len(cases)
+
+
 def run(ck, replay=None):
     quick = ck.tier == 'quick'
     ck.cov['rule'] = ('behaviours = paths covering every reachable state (thorough: every transition) of Jobs.tla (up to 5 jobs; '
@@ -66,7 +122,7 @@ def run(ck, replay=None):
                       'every step.  non-trivial = a job ends and the table is collected while another job is still running; '
                       'distinct = different operation sequences.')
     ck.assumptions += ['a job finishing is Process.SetTerminatedState(true), as deregisterProcess does',
-                       'each process is added to the table once (the call site in executeProcess is exercised by C28/C03 traces, not here)']
+                       'the call site (executeProcess adding a `bg` command to the table) is exercised with murex programs whose bg block holds one plain or aliased external command; blocks with several processes are not judged (the property does not say how many jobs they are)']
     r = common.tlc('Jobs', 'MCJobs.cfg', os.path.join(ck.scratch, 'mc'), timeout=1800)
     if r.violated:
         raise common.Infra('Jobs.tla violates %s: the specification is wrong\n%s' % (r.violated, r.out[-3000:]))
@@ -75,3 +131,4 @@ def run(ck, replay=None):
     plans = [('MCJobsGenQ.cfg', 'nodes')] if quick else [('MCJobsGen.cfg', 'edges')]
     generic_replay(ck, 'Jobs', 'jobs-replay', plans, ['ret'], step_fn, nontrivial, key)
     ck.cov['exhaustive'] = not quick
+    murex_level(ck, quick)
